@@ -11,6 +11,10 @@ CHECKS = {
          'Every program of each grammar family up to its node budget is rendered to source, run through the real pipeline and through the reference interpreter internal/refsem; value, error class, ordered print/emit log and final globals must agree. Complete within the families and budgets reported in the evidence file.',
          'Trusted: the reference interpreter (DESIGN Appendix A semantics sheet; constructs outside the sheet are not generated or are skipped as outside-sheet). Programs larger than the node budget are not covered.',
          'E1 progen+refsem', '4 C01'),
+ 'C03': ('exploration', 'bounded-exhaustive enumeration of hostile inputs in crash-isolating worker processes (token sequences, single-token edits, every default callable/method x hostile argument tuples, deep nesting)',
+         'Every token sequence of <= 3 (thorough 4) tokens over a 56-token alphabet, every single-token deletion/duplication of the function/container/error/closure families, every default-global callable and every builtin-type method name applied to tuples from 22 hostile values (cyclic containers, extreme integers, NaN, invalid UTF-8, closed channel, exhausted iterator, ...), operators and interpolation on all pairs, and 17 constructs nested up to 10^3 (thorough 10^6) deep are pushed through Parse, Program.String, Compile, Eval and the error formatters inside worker children; a child that dies identifies the input in flight.',
+         'Trusted: the worker protocol (index announced before each input). exec, network modules and exit are excluded (statement exemptions); memory exhaustion by inputs that carry an extreme size is exempt. One known finding (cyclic containers exhaust the native stack).',
+         'E5 enum + E7 crashbox', '4 C03'),
  'C04': ('model_checking', 'explicit-state search over (code, ip, stack height) of the compiled bytecode of every generated program, all paths; effect table validated against every instruction the real VM executes',
          'For every generated program the complete reachable (code, ip, operand-stack height) graph is explored with the invariants one-height-per-ip, no underflow, program ends with exactly its result; the stack-effect table is bound to the implementation by checking every instruction executed by the real VM (step hook) against it; loop skeletons are additionally run at 10 vs >2x/100x stack-capacity iterations against the reference interpreter.',
          'Trusted: the effect table in internal/bcflow (validated per run by step-hook conformance), the vm step hook (tag verif). Programs outside the generated families are not covered.',
